@@ -853,58 +853,6 @@ func (w *World) ruleCaseHelper(r *Report, rule, name string, lo, hi int64, off i
 	w.ruleCaseHelperFn(r, rule, fn, lo, hi, off)
 }
 
-func (w *World) ruleCaseHelperFn(r *Report, rule string, fn *ssa.Function, lo, hi int64, off int64) {
-	name := fnName(fn)
-	f := w.flow(fn)
-	ok := false
-	fact := "no store of name[0] ± 32 into the first octet found"
-	for _, b := range fn.Blocks {
-		for _, in := range b.Instrs {
-			st, isSt := in.(*ssa.Store)
-			if !isSt {
-				continue
-			}
-			ia, isIA := st.Addr.(*ssa.IndexAddr)
-			if !isIA {
-				continue
-			}
-			if k, isC := ia.Index.(*ssa.Const); !isC || k.Int64() != 0 {
-				continue
-			}
-			// value = name[0] + off under name[0] ∈ [lo,hi]
-			t := f.term(st.Val)
-			for t.K == TConv {
-				t = t.A
-			}
-			if t.K != TBin {
-				continue
-			}
-			var c *Term
-			var x *Term
-			if t.B.K == TConst {
-				c, x = t.B, t.A
-			} else if t.A.K == TConst {
-				c, x = t.A, t.B
-			}
-			if c == nil {
-				continue
-			}
-			delta := c.C.Int64()
-			if t.Op == token.SUB {
-				delta = -delta
-			}
-			src, _ := f.Eval(x, f.At(b))
-			if delta == off && src != nil && src.Equal(mkSet(lo, hi)) {
-				ok = true
-				fact = fmt.Sprintf("first octet ∈ %s is mapped by %+d, everything else is returned unchanged", src, off)
-			} else {
-				fact = fmt.Sprintf("first octet ∈ %s is mapped by %+d (want %s by %+d)", src, delta, mkSet(lo, hi), off)
-			}
-		}
-	}
-	r.add(rule, name+" · case mapping of the first octet", w.pos(fn.Pos()), ok, fact)
-}
-
 // ruleObjectIndexForms: dispatchers and encoder header for object instances.
 func (w *World) ruleObjectIndexForms(r *Report, rule string) {
 	for _, dn := range []string{"(*Decoder).ReadData", "(*Decoder).readStruct", "(*Decoder).readObjectDef"} {
